@@ -104,8 +104,11 @@ def run(chk, failed):
                 "backend and a generated viper configuration: every registered /v3 pattern x parameter pool (existing, "
                 "upper/lower-case, near-miss, dotted incl. <name>.class-name/.password, spaces, NUL, %2F, 4 KiB, unicode, "
                 "invalid UTF-8, percent/reserved characters) plus a stream of mutated/unrouted paths and methods; plus "
-                "storage-backed cases (real storage + evaluator + HTTP coordinators, twin stacks, dump of every Fetch type "
-                "with and without a batch of GETs served in between, clock moved across expiry); "
+                "storage-backed cases (real storage + evaluator + HTTP coordinators, three identical stacks: later reads compared -- a sweep "
+                "of every /v3 GET route for every name, both status views of every group in both orders and repeated inside the "
+                "evaluator's cache lifetime, answered by a stack that served a batch of GETs before and by one that did not, status "
+                "code + canonicalised body pairwise and per repetition -- plus the dump of every Fetch type with and without GETs "
+                "served, clock moved across expiry; groups with OK partitions listed before non-OK ones); "
                 "non-trivial = the request reaches a /v3 handler with at least one path parameter and a typed backend, or a "
                 "storage-backed case with at least one live group; distinct by the case line")
     impl, model, mism = chk.differential(*PROBE, cases, name="req", project=project)
@@ -120,6 +123,12 @@ def run(chk, failed):
                 for cat in m["groups"][cl].values():
                     chk.count("e2e:group-" + cat)
             chk.count("e2e:clock-advance-%s-expire" % ("beyond" if m["t_end_off"] > m["expire"] else "within" if m["t_end_off"] else "none"))
+            chk.count("e2e:sweep-requests (served on two stacks each)", len(m["sweep"]))
+            if " mix=0 " not in a and " mix=" in a:
+                chk.count("e2e:cases with an OK partition listed before a non-OK one")
+            for plan in m["plans"].values():
+                for _, _, kind in plan:
+                    chk.count("e2e:partition-plan-" + kind)
             if " live=0 " not in a:
                 chk.nontrivial.add(C.case_hash(c))
             chk.count("oracle:" + (why if verdict != "violation" else "VIOLATION"))
